@@ -12,7 +12,7 @@ LEVEL_TEXT = (
     'encloses result consumption except in the *_except APIs, whose handler catches only the caller-supplied class around '
     'future.result() alone; (d) StoreConfigMap rejects per-label worker settings that differ from the default, the zip store builds its '
     'pools from the default config and its parallel and sequential read paths share one payload generator; Batch._derive propagates the '
-    'pool settings. Not decided: pickling fidelity across processes; scheduling.')
+    'pool settings. Sibling agreement: in each Batch applicator the pooled generator yields the same argument tuple, for the same worker function, as the in-process branch. Not decided: pickling fidelity across processes; scheduling.')
 
 CLAIM = dict(
     text=LEVEL_TEXT,
@@ -26,4 +26,5 @@ def run(ctx: Ctx) -> None:
     parallel.single_pass_pairing(ctx)
     parallel.errors_surface(ctx)
     parallel.config_alignment(ctx)
+    parallel.sequential_pool_agree(ctx)
     table.t9_derive(ctx, which=('Batch',))
